@@ -32,8 +32,31 @@ package gortsplib
 //@   opt inline=0
 //@   modifies *
 
+// --- C02: session state machine -------------------------------------------------------------
+//@ func (ss *ServerSession) checkState
+//@   ensures[C02] (ret == nil) <==> has(allowed, ss.state)
+//@   modifies fresh
+
+// RFC 2326 table: which method is legal in which state.
+//@ spec legalIn(st ServerSessionState, m base.Method) bool = (m == base.Announce && st == ServerSessionStateInitial) || (m == base.Setup && (st == ServerSessionStateInitial || st == ServerSessionStatePrePlay || st == ServerSessionStatePreRecord)) || (m == base.Play && (st == ServerSessionStatePrePlay || st == ServerSessionStatePlay)) || (m == base.Record && st == ServerSessionStatePreRecord) || (m == base.Pause && (st == ServerSessionStatePrePlay || st == ServerSessionStatePlay || st == ServerSessionStatePreRecord || st == ServerSessionStateRecord))
+//@ spec stateful(m base.Method) bool = m == base.Announce || m == base.Setup || m == base.Play || m == base.Record || m == base.Pause
+
+// Every store to the session state is one of the transitions of the table, taken from the
+// state the request found (callees abstracted; the field has no other writer, which govc
+// checks); a request that is illegal in the current state gets an error and 400 and leaves
+// the state alone; a response is always returned.
 //@ func (ss *ServerSession) handleRequestInner
 //@   opt inline=0
+//@   opt sole-writer=ServerSession.state
+//@   requires req != nil && sc != nil
+//@   assert[C02]@store:state#1 old(req.Method) == base.Announce && old(ss.state) == ServerSessionStateInitial
+//@   assert[C02]@store:state#2 old(req.Method) == base.Setup && old(ss.state) == ServerSessionStateInitial
+//@   assert[C02]@store:state#3 old(req.Method) == base.Play && old(ss.state) == ServerSessionStatePrePlay
+//@   assert[C02]@store:state#4 old(req.Method) == base.Record && old(ss.state) == ServerSessionStatePreRecord
+//@   assert[C02]@store:state#5 old(req.Method) == base.Pause && old(ss.state) == ServerSessionStatePlay
+//@   assert[C02]@store:state#6 old(req.Method) == base.Pause && old(ss.state) == ServerSessionStateRecord
+//@   ensures[C02] stateful(old(req.Method)) && !legalIn(old(ss.state), old(req.Method)) ==> ss.state == old(ss.state) && err != nil && ret0 != nil && ret0.StatusCode == base.StatusBadRequest
+//@   ensures[C02] ss.state == old(ss.state) || (old(ss.state) == ServerSessionStateInitial && ss.state == ServerSessionStatePreRecord) || (old(ss.state) == ServerSessionStateInitial && ss.state == ServerSessionStatePrePlay) || (old(ss.state) == ServerSessionStatePrePlay && ss.state == ServerSessionStatePlay) || (old(ss.state) == ServerSessionStatePreRecord && ss.state == ServerSessionStateRecord) || (old(ss.state) == ServerSessionStatePlay && ss.state == ServerSessionStatePrePlay) || (old(ss.state) == ServerSessionStateRecord && ss.state == ServerSessionStatePreRecord)
 //@   modifies *
 
 //@ func (sc *ServerConn) handleRequestInner
